@@ -12,9 +12,9 @@ import math
 
 import numpy as np
 
-from harness import common, refmetrics
+from harness import common, refmetrics, lattice
 
-COQ_FILES = ["model/Metrics.v", "proofs/C07Proofs.v"]
+COQ_FILES = ["model/Metrics.v", "proofs/C07Proofs.v", "model/SparseOps.v", "model/Lattice.v", "proofs/C08Proofs.v", "proofs/LatticeProofs.v"]
 SENTINELS = {"pynndescent/distances.py": ["euclidean", "squared_euclidean", "standardised_euclidean", "manhattan", "chebyshev", "minkowski",
                                           "weighted_minkowski", "mahalanobis", "hamming", "canberra", "bray_curtis", "jaccard", "matching",
                                           "dice", "kulsinski", "rogers_tanimoto", "russellrao", "sokal_michener", "sokal_sneath",
@@ -286,6 +286,7 @@ def run(ctx):
     ctx.notes["sentinels"] = cur
     ctx.build(COQ_FILES)
     binary_exhaustive(ctx, ctx.budget(5, 6))
+    lattice.stream(ctx, ctx.budget(600, 6000), "dense")
     general(ctx, ctx.budget(3, 20))
     identity_search(ctx, ctx.budget(3000, 40000))
     bit_metrics(ctx)
